@@ -99,7 +99,7 @@ def shrink(case, fails):
     return {"cfg": case["cfg"], "ops": ops}
 
 
-CONC_PROPS = {"C01", "C02", "C03", "C04", "C05", "C12", "C14", "C18"}      # properties whose check includes the interleaved stage (lib/conclib.py)
+CONC_PROPS = {"C01", "C02", "C03", "C04", "C05", "C06", "C07", "C12", "C14", "C18"}      # properties whose check includes the interleaved stage (lib/conclib.py)
 
 
 def run(prop, theorems, tier, replay=None, extra_gen=None, known_classifier=None, rule_note="", link=(), extra_stage=None):
